@@ -75,7 +75,7 @@ def run(rep, tier, seed, proof_ok):
                 "MemoryStore, LocalFileStore, LocalFileStore+object cache and DBFSStore over the fake dbutils, all compared with the "
                 "dictionary specification evaluated in Coq; exhaustive aliasing search over all pairs of paths of 1..3 segments over "
                 "{a, b, ab} (+ '.', '..' segments) on the real local and DBFS stores; realpath of every created entry must stay inside "
-                "the data directory; distinct = distinct (store, sequence) or path pair; non-trivial = sequence with a sync followed by a "
+                "the data directory; commits of paths that are prefixes / extensions of committed paths must not disturb those; distinct = distinct (store, sequence) or path pair; non-trivial = sequence with a sync followed by a "
                 "fetch of the same path")
     n_seq = 40 if tier == "quick" and proof_ok else 400
     jobs = []
@@ -110,6 +110,27 @@ def run(rep, tier, seed, proof_ok):
                           f"(operation {idx}: {so[idx] if idx >= 0 else ''})", {"store": j["kind"], "ops": ops, "impl": impl, "model": m, "first_diff": idx})
         if r.get("outside"):
             rep.violation("escape:" + j["kind"], f"entries created outside the data directory: {r['outside']}", {"store": j["kind"], "ops": ops, "outside": r["outside"]})
+    # a path is committed that is a strict prefix (or extension) of committed paths: the commit may be refused, but what was
+    # committed before must keep resolving to its key (nothing may be deleted to make room), also after reopening
+    pjobs = []
+    for kind in ("local", "local+lru"):
+        for first, later in ((["/a/b", "/a/c/d"], "/a"), (["/a"], "/a/b"), (["/x/y/z"], "/x/y"), (["/a/b", "/q"], "/a/b/c")):
+            ops = [["put", "k0", "v0"], ["put", "k1", "v1"], ["put", "k3", "v3"]]
+            ops += [["sync", [[pth, ["k0", "k1"][i % 2]]]] for i, pth in enumerate(first)]
+            ops += [["sync", [[later, "k3"]]]] + [["fpaths", [pth]] for pth in first] + [["reopen"]] + [["fpaths", [pth]] for pth in first]
+            store, cap = (kind.split("+")[0], 3) if "+lru" in kind else (kind, "bare")
+            pjobs.append({"store": store, "cap": cap, "ops": ops, "kind": kind, "first": first, "later": later})
+    pres = C.run_driver("drive_store.py", {"seqs": pjobs})["seqs"]
+    for j, r in zip(pjobs, pres):
+        rep.case(json.dumps(["prefix-history", j["kind"], j["first"], j["later"]]))
+        n0 = 3 + len(j["first"])
+        refused = r["outs"][n0] != "U"
+        reads = [x for x, o in zip(r["outs"], j["ops"]) if o[0] == "fpaths"]
+        want = [f"P:{pth}={['k0', 'k1'][i % 2]}" for i, pth in enumerate(j["first"])] * 2
+        if reads != want:
+            rep.violation("committed-path-lost:prefix-related-commit:" + j["kind"],
+                          f"{j['kind']} store: after committing {j['first']} the commit of {j['later']} was {'refused' if refused else 'accepted'}, and the earlier "
+                          f"paths now resolve to {reads} instead of {want}", {"store": j["kind"], "ops": j["ops"], "outs": r["outs"]})
     # aliasing / escape search on the real stores
     small = ["a", "b", "ab"]
     allp = ["/" + "/".join(t) for n in (1, 2, 3) for t in itertools.product(small, repeat=n)]
